@@ -371,6 +371,32 @@ def enumeration(tname, node=None):
     return [e.get('value') for e in r.findall(XS + 'enumeration')]
 
 
+_NEAR = {}
+
+
+def near_miss_literals(tname, limit=4):
+    """literals of other enumerated types that overlap with tname's enumeration but are not in it"""
+    if tname is None:
+        return []
+    if not _NEAR:
+        enums = {}
+        for t, node in stypes.items():
+            r = node.find(XS + 'restriction')
+            if r is not None:
+                vals = [e.get('value') for e in r.findall(XS + 'enumeration')]
+                if vals:
+                    enums[t] = vals
+        for t, vals in enums.items():
+            mine = set(vals)
+            out = []
+            for u, uv in sorted(enums.items(), key=lambda kv: (-len(mine & set(kv[1])), kv[0])):
+                if u == t or not (mine & set(uv)):
+                    continue
+                out += [x for x in uv if x not in mine and x not in out]
+            _NEAR[t] = out
+    return _NEAR.get(tname, [])[:limit]
+
+
 PATTERN_POSITIVES = {
     'color': ['#000000', '#FF00AA80', '#12AB3F', '#0A1B2C3D'],
     'comma-separated-text': ['Arial', 'Times, serif', 'a,b', 'x y, z'],
@@ -496,7 +522,7 @@ def invalid_forms(tname, node=None):
     enums = [e.get('value') for e in r.findall(XS + 'enumeration')]
     if enums:
         out = ['@@nope@@', enums[0].upper() if enums[0].upper() != enums[0] else enums[0].lower(), enums[0] + 'x', '']
-        return out
+        return out + near_miss_literals(name)
     if r.findall(XS + 'pattern'):
         return list(PATTERN_NEGATIVES.get(name, []))
     out = []
